@@ -44,6 +44,9 @@ def families(tier):
     q.append({'name': 'A5c', 'params': {'hist': 'BF', 'kinds': ['is_dir'], 'modes': ['ok', 'raise_after'], 'no_reference': True}, 'weight': 1})
     q.append({'name': 'A5d', 'params': {'hist': 'F', 'kinds': ['is_dir'], 'modes': ['ok', 'raise_after'], 'no_reference': True}, 'weight': 1})
     q.append({'name': 'A5d', 'params': {'hist': 'BF', 'kinds': ['is_dir'], 'modes': ['ok', 'raise_after'], 'no_reference': True}, 'weight': 1})
+    # the directory that holds the cache file is itself turned into an output file (or back): the cache write then fails
+    q.append({'name': 'A8', 'params': {'hist': 'BB', 'kinds': ['is_dir'], 'swap_dir': 'c', 'swap_file': 'c/x', 'cache': 'c/cache',
+                                       'universe': ['c', 'o', 'o/f'], 'no_reference': True}, 'weight': 1})
     q.append({'name': 'backups', 'params': {}, 'weight': 1})
     # '... or while the cache file is being written': an OSError at the open / data write / final rename of the cache write
     q.append({'name': 'cachewrite', 'params': {'skel': 'A3', 'hist': 'X', 'kinds': ['is_dir'], 'roles': ['o'], 'targets': ['o/d/g'],
@@ -177,7 +180,7 @@ def harness(eng, fam, P):
     shared = {}
     progs = [Program(eng, b, shared) for b in bodies]
     eng.path_info['program'] = ' || '.join(show(b) for b in bodies)
-    w = World(eng, P.get('universe', U7), sandbox=getattr(eng, 'sandbox', None))
+    w = World(eng, P.get('universe', U7), cache_rel=P.get('cache', 'cache'), sandbox=getattr(eng, 'sandbox', None))
     try:
         d = Driver(eng, w)
         nb = 0
@@ -187,9 +190,17 @@ def harness(eng, fam, P):
             prog = progs[min(nb, len(progs) - 1)]
             if step == 'B':
                 nb += 1
+                pre_b = w.fs.snapshot(w.root) if P.get('no_reference') else None
+                prev_created_b = set(d.state.created_dirs) if w.fs.kind(w.cache) == 1 else set()
                 impl, ref = d.build(prog)
                 if P.get('no_reference'):
                     if impl[0] != 'ok':
+                        if nb > 1:
+                            # a build that fails on its own (e.g. the cache file cannot be written because its directory
+                            # became an output file): the rollback obligations hold for it just the same
+                            eng.note('nontrivial:build-failed-by-itself')
+                            eng.witness('rolled-back')
+                            check_rollback(eng, w, d, pre_b, prev_created_b, (fam, hist, 'self-failed'))
                         return
                 else:
                     d.guard_same('prefix')
